@@ -160,6 +160,43 @@ theorem failure_keeps_local (F : Nat) (issuer : Node) (d : Doc) (h : Agree issue
   simp only [hw, Bool.not_true, Bool.false_eq_true, if_false]
   rw [storeView_put]; simp
 
+/-- `hfresh` holds for every fresh write: a stamp that is at least every stamp of its origin the
+replica has applied (clocks issue strictly increasing stamps per origin: C09, C11) is never before
+the replica's cut-off for that origin. -/
+theorem fresh_not_before (F : Nat) (s : OrSwot) (S : Nat → Prop) (hv : VersInv F s S) (t : Nat)
+    (hS : ∀ m, S m → m < 18446744073709551616 ∧ Ts.fractional m < 250 ∧ (Ts.node m = Ts.node t → m ≤ t)) :
+    isBefore s.safe t = false := by
+  unfold isBefore
+  cases hg : Map.get s.safe (Ts.node t) with
+  | none => rfl
+  | some v =>
+    simp only [decide_eq_false_iff_not]
+    obtain ⟨m, hm1, hm2, hm3⟩ := hv.safe _ _ hg
+    rw [hm3]
+    rcases hm1 with hm1 | hm1
+    · obtain ⟨h1, h2, h3⟩ := hS m hm1
+      have := forgive_le F m h1 h2
+      have := h3 hm2
+      omega
+    · have hn := Ts.node_lt t
+      have hp : Ts.pack 0 0 (Ts.node t) = Ts.node t := by unfold Ts.pack Ts.durSecs Ts.durFrac; omega
+      rw [hp] at hm1
+      have hfl := forgive_le F m (by omega) (by rw [hm1]; unfold Ts.fractional; omega)
+      have : Ts.node t ≤ t := by unfold Ts.node; omega
+      omega
+
+/-- `ack_put_holds` for a replica that represents what it applied and a write that is fresh for it. -/
+theorem ack_put_holds_fresh (F : Nat) (n : Node) (A : List Op) (src : Nat) (d : Doc) (fail : Bool)
+    (h : Agree n) (hr : Rep F n.set A)
+    (hvalid : ∀ o ∈ A, o.ts < 18446744073709551616 ∧ Ts.fractional o.ts < 250)
+    (hnew : ∀ o ∈ A, Ts.node o.ts = Ts.node d.2.1 → o.ts ≤ d.2.1)
+    (hack : (onSet F n src d fail).2 = .ok) :
+    ∃ r, storeView (onSet F n src d fail).1.store d.1 = some r ∧ d.2.1 ≤ r / 2 :=
+  ack_put_holds F n src d fail h
+    (fresh_not_before F n.set (Stamps A) hr.vers d.2.1 (by
+      rintro m ⟨o, ho, rfl⟩
+      exact ⟨(hvalid o ho).1, (hvalid o ho).2, hnew o ho⟩)) hack
+
 /-- Non-vacuity: two replicas, one fails: the error says 1 of 2. -/
 example : distribute [true, false] = .error (1, 2) ∧ distribute [true, true] = .ok () ∧
     distribute [] = .ok () := ⟨rfl, rfl, rfl⟩
